@@ -295,12 +295,12 @@ def gen_step(rng, t, x, has_ref, allow_dtg=True):
     if op == "scale_x":
         return {"op": op, "by": rng.choice(["-1", "2", "1/2", "0"])}
     if op == "shift_t":
-        return {"op": op, "by": rng.choice(["1/2", "-3/4", "10", "-8"])}
+        return {"op": op, "by": str(Fraction(rng.choice(["1/2", "-3/4", "10", "-8"])) * tunit(t))}
     if op == "move_end":
         # the first or last stored time is edited in place: span, duration and average step change, the number of samples does not
         if rng.random() < 0.5:
-            return {"op": op, "i": 0, "value": str(rng.choice([t[0] - Fraction(rng.randint(1, 6), 4), t[0] + (t[1] - t[0]) / 2]))}
-        return {"op": op, "i": n - 1, "value": str(rng.choice([t[-1] + Fraction(rng.randint(1, 6), 4), t[-1] - (t[-1] - t[-2]) / 2]))}
+            return {"op": op, "i": 0, "value": str(rng.choice([t[0] - Fraction(rng.randint(1, 6), 4) * tunit(t), t[0] + (t[1] - t[0]) / 2]))}
+        return {"op": op, "i": n - 1, "value": str(rng.choice([t[-1] + Fraction(rng.randint(1, 6), 4) * tunit(t), t[-1] - (t[-1] - t[-2]) / 2]))}
     if op == "scale_t":
         return {"op": op, "by": rng.choice(["2", "1/2", "4"])}
     if op == "move_t":
@@ -311,7 +311,19 @@ def gen_step(rng, t, x, has_ref, allow_dtg=True):
     # modify(twin): at least three samples are kept
     i = rng.randrange(0, n - 2)
     j = rng.randrange(i + 2, n)
-    return {"op": "modify", "twin": [str(t[i] - Fraction(rng.randint(0, 1), 16)), str(t[j] + Fraction(rng.randint(0, 1), 16))]}
+    return {"op": "modify", "twin": [str(t[i] - Fraction(rng.randint(0, 1), 16) * tunit(t)), str(t[j] + Fraction(rng.randint(0, 1), 16) * tunit(t))]}
+
+
+def tunit(t):
+    """unit of the time axis: 1 for ordinary series, the power of two below the span for series in a much finer unit (the constants
+    of time-shifting steps are given in that unit, so that sample times stay exactly representable)"""
+    span = t[-1] - t[0]
+    if span >= Fraction(1, 64) or span <= 0:
+        return Fraction(1)
+    u = Fraction(1)
+    while u > span:
+        u /= 2
+    return u
 
 
 def step_op(h):
@@ -1121,7 +1133,7 @@ def tagged_clauses(t, x, o, ftype, spell=None, ts=None):
                         ["taper"] * o["taper"] + ["filter"] * o["filter"] + ["smooth"] * o["smooth"], names))
         for c in calls:
             if c[0] in ("lowpass", "highpass", "bandpass", "bandblock") and len(im[1]) >= 2:
-                if abs(c[1] - (im[1][1] - im[1][0])) > 1e-12 * max(1.0, abs(c[1])):
+                if abs(c[1] - (im[1][1] - im[1][0])) > 1e-9 * abs(im[1][1] - im[1][0]):
                     bad.append(("the filter sees the sampling interval of the series it is applied to", float(im[1][1] - im[1][0]), c[1]))
             # every stage gets the parameters of its own option
             if c[0] in ("lowpass", "highpass", "bandpass", "bandblock"):
@@ -1769,6 +1781,11 @@ def run(chk):
             t = [Fraction(int(t[0])) + i for i in range(len(t))] if rng.random() < 0.5 else \
                 [Fraction(v) for v in np.cumsum([int(t[0])] + [rng.choice([1, 1, 2, 3]) for _ in t[1:]]).tolist()]
             x = [Fraction(rng.randint(-64, 64)) for _ in x]
+        if rng.random() < 0.12:
+            # the time axis in another unit (x 2^q: days instead of seconds, MHz sampling ...): exact in floating point; nothing in the
+            # pipeline (uniformity test, grid for the filter, window) may depend on the absolute size of a time step
+            q = rng.choice([-30, -30, -24, 20])
+            t = [u * Fraction(2) ** q for u in t]
         o = avoid_tie(gen_opts(rng, t), t)
         meta.append((t, x, o, rng.choice(["lp", "hp", "bp", "bs"]), spell, "pl.get"))
     for t, x, o, ftype, spell, stream in meta:
